@@ -51,7 +51,7 @@ def main():
         demo_src = open(demo).read()
         # run the demo against the scratch worktree whatever path it hard-codes
         demo_local = os.path.join(wt, "_demo_seeded.py")
-        open(demo_local, "w").write(re.sub(r"/tmp/m/%s/repo" % prop, wt, demo_src))
+        open(demo_local, "w").write(re.sub(r"/tmp/m\d*/%s/repo" % prop, wt, demo_src))
         rc0, out0 = sh("/venv/bin/python _demo_seeded.py", cwd=wt, timeout=900)
         ran.append("demo on unchanged tree -> exit %d" % rc0)
         rc, out = sh("git apply %s" % patch, cwd=wt)
